@@ -24,6 +24,8 @@ pub enum Sem {
     /// a prefilter candidate: <= first occurrence; None only if no occurrence;
     /// the pair bytes are present at the candidate
     Cand,
+    /// the whole greedy non-overlapping forward sequence
+    FwdAll,
 }
 
 #[derive(Clone)]
@@ -112,6 +114,8 @@ pub enum Kind {
     PpSimd,
     PpVn(usize),
     Ranked(String, bool),
+    /// complete find_iter traversal of a finder built with a ranker
+    RankedAll(String, bool),
     RMemmem,
     RFinder,
     RIterFirst,
@@ -158,6 +162,9 @@ impl Kind {
                     Kind::PpVn(n.parse().unwrap())
                 } else if let Some(n) = s.strip_prefix("pf-vn") {
                     Kind::PfVn(n.parse().unwrap())
+                } else if let Some(r) = s.strip_prefix("rankedall:") {
+                    let (rid, pre) = r.rsplit_once(':').expect("rankedall:<id>:<auto|none>");
+                    Kind::RankedAll(rid.to_string(), pre == "auto")
                 } else if let Some(r) = s.strip_prefix("ranked:") {
                     let (rid, pre) = r.rsplit_once(':').expect("ranked:<id>:<auto|none>");
                     Kind::Ranked(rid.to_string(), pre == "auto")
@@ -185,6 +192,7 @@ impl Kind {
             Kind::PpSimd => "pp-simd128".into(),
             Kind::PpVn(n) => format!("pp-vn{}", n),
             Kind::Ranked(r, p) => format!("ranked:{}:{}", r, if *p { "auto" } else { "none" }),
+            Kind::RankedAll(r, p) => format!("rankedall:{}:{}", r, if *p { "auto" } else { "none" }),
             Kind::RMemmem => "rmemmem".into(),
             Kind::RFinder => "rfinder".into(),
             Kind::RIterFirst => "riter-first".into(),
@@ -204,6 +212,7 @@ impl Kind {
         match self {
             Kind::RMemmem | Kind::RFinder | Kind::RIterFirst | Kind::RFinderOwned | Kind::RTwoWay | Kind::RRk => Sem::Rev,
             Kind::PfSse2 | Kind::PfAvx2 | Kind::PfNeon | Kind::PfSimd | Kind::PfPortable | Kind::PfVn(_) => Sem::Cand,
+            Kind::RankedAll(..) => Sem::FwdAll,
             _ => Sem::Fwd,
         }
     }
@@ -211,7 +220,7 @@ impl Kind {
     /// Whether building from a borrowed needle and searching must not touch
     /// the heap (C17). The owning conversions and Shift-Or may allocate.
     pub fn must_not_alloc(&self) -> bool {
-        !matches!(self, Kind::FinderOwned | Kind::RFinderOwned | Kind::ShiftOr)
+        !matches!(self, Kind::FinderOwned | Kind::RFinderOwned | Kind::ShiftOr | Kind::RankedAll(..) | Kind::Ranked(..))
     }
 }
 
@@ -273,6 +282,8 @@ impl VnPp {
 pub enum Built<'n> {
     Memmem(&'n [u8]),
     Finder(Finder<'n>),
+    /// complete find_iter traversal
+    FinderAll(Finder<'n>),
     /// searched through a fresh `as_ref()` on every call
     FinderAsRef(Finder<'n>),
     IterFirst(&'n [u8]),
@@ -303,12 +314,15 @@ pub enum Built<'n> {
 }
 
 /// Result of running a subject on one haystack.
-#[derive(Clone, Copy, Debug, PartialEq, Eq)]
+#[derive(Clone, Debug, PartialEq, Eq)]
 pub enum Ran {
     /// outside the subject's documented domain (e.g. haystack shorter than
     /// min_haystack_len, needle too long for Shift-Or)
     NotApplicable,
     Pos(Option<usize>),
+    /// a whole iteration; the flag says whether the iterator's prefilter
+    /// state ended inert (read off the real object's Debug rendering)
+    Seq(Vec<usize>, bool),
 }
 
 pub fn build<'n>(kind: &Kind, needle: &'n [u8], pair: Option<Pair>, seed: u64) -> Built<'n> {
@@ -389,6 +403,15 @@ pub fn build<'n>(kind: &Kind, needle: &'n [u8], pair: Option<Pair>, seed: u64) -
                 Built::Finder(b.build_forward_with_ranker(ranker(rid, needle, seed), needle))
             }
         }
+        Kind::RankedAll(rid, auto) => {
+            let mut b = FinderBuilder::new();
+            b.prefilter(if *auto { Prefilter::Auto } else { Prefilter::None });
+            if rid == "default" {
+                Built::FinderAll(b.build_forward(needle))
+            } else {
+                Built::FinderAll(b.build_forward_with_ranker(ranker(rid, needle, seed), needle))
+            }
+        }
         Kind::RMemmem => Built::RMemmem(needle),
         Kind::RFinder => Built::RFinder(FinderRev::new(needle)),
         Kind::RIterFirst => Built::RIterFirst(needle),
@@ -431,6 +454,18 @@ impl<'n> Built<'n> {
         match self {
             Built::Memmem(n) => Ran::Pos(memmem::find(h, n)),
             Built::Finder(f) => Ran::Pos(f.find(h)),
+            Built::FinderAll(f) => {
+                let mut it = f.find_iter(h);
+                let mut v = vec![];
+                while let Some(p) = it.next() {
+                    v.push(p);
+                    if v.len() > h.len() + 2 {
+                        break;
+                    }
+                }
+                let inert = format!("{:?}", it).contains("skips: 0,");
+                Ran::Seq(v, inert)
+            }
             Built::FinderAsRef(f) => {
                 let r = f.as_ref();
                 assert_eq!(r.needle(), f.needle(), "as_ref changed the needle");
